@@ -64,8 +64,9 @@ ShiftNum(regs, i) ==     \* i = 8 .. 1: register i+1 := register i (only those t
     IF i = 0 THEN regs
     ELSE ShiftNum(IF (48 + i) \in DOMAIN regs /\ regs[48 + i].has
                   THEN RegPutRaw(regs, 48 + i + 1, regs[48 + i].s, regs[48 + i].ln) ELSE regs, i - 1)
-RegPut(regs, c, s, ln) ==
-    LET r1 == IF (ln \/ HasNL(s)) /\ (c = 0 \/ IsAlpha(c))
+RegPut(regs, c0, s, ln) ==
+    LET c  == IF c0 = 34 THEN 0 ELSE c0          \* the register named " is the unnamed one, for writing as for reading
+        r1 == IF (ln \/ HasNL(s)) /\ (c = 0 \/ IsAlpha(c))
               THEN RegPutRaw(ShiftNum(regs, 8), 49, s, ln) ELSE regs
     IN RegPutRaw(r1, c, s, ln)
 RegGet(regs, c) == LET k == IF c = 34 THEN 0 ELSE c IN
@@ -359,7 +360,7 @@ ExStep(ed0, c) ==
            IF ~g.has THEN Fail(ed0)
            ELSE LET r == Region(ed0, c.loc)  ed == r.ed IN
                 IF ~r.ok THEN Fail(ed)
-                ELSE LET e2 == ExRun([ed EXCEPT !.row = r.beg], c.cmds) IN [e2 EXCEPT !.lb = Lb!Bump(e2.lb)]
+                ELSE ExRun([ed EXCEPT !.row = r.beg], c.cmds)          \* no undo step of its own: one step per prompt line (C04)
       [] k = "se" -> Ok([ed0 EXCEPT !.ic = c.val])        \* :se ic / :se noic
 
 (* one line typed at the prompt: ex_command() = ex_exec() + the command boundary (lbuf_modified) *)
